@@ -144,6 +144,8 @@ pub struct Trace {
     pub sig_checks: Vec<(Vec<u8>, Vec<u8>, bool)>,
     /// (kind, preimage, digest)
     pub hash_ops: Vec<(HashKind, Vec<u8>, Vec<u8>)>,
+    /// indices into hash_ops whose digest was then compared equal by EQUAL / EQUALVERIFY
+    pub hash_matched: Vec<usize>,
     pub cltv: Vec<i64>,
     pub csv: Vec<i64>,
     /// Number of opcodes executed (including pushes) - a step counter.
@@ -663,6 +665,15 @@ impl Machine {
                         let a = self.val(1, Role::Any)?;
                         let b = self.val(0, Role::Any)?;
                         let eq = a == b;
+                        if eq {
+                            if let Some(last) = self.trace.hash_ops.len().checked_sub(1) {
+                                if self.trace.hash_ops[last].2 == *a
+                                    && !self.trace.hash_matched.contains(&last)
+                                {
+                                    self.trace.hash_matched.push(last);
+                                }
+                            }
+                        }
                         if c == OP_EQUALVERIFY && !eq {
                             return Err(Fail::ScriptFalse("EQUALVERIFY").into());
                         }
